@@ -40,6 +40,23 @@ static DIRSEQ: AtomicUsize = AtomicUsize::new(0);
 /// how often the peer did not receive what the sink's counters said was sent; after a handful the
 /// 200 ms grace is dropped (the discrepancy is established, waiting again adds nothing)
 static SHORT_DRAINS: AtomicUsize = AtomicUsize::new(0);
+/// sink calls that did not return within the 3 s watchdog (a blocking send nobody will ever unblock)
+static BLOCKED: AtomicUsize = AtomicUsize::new(0);
+
+/// run a sink call on its own thread and give up on it after 3 s
+fn watchdog<F: FnOnce() -> String + Send + 'static>(f: F) -> String {
+    let (tx, rx) = std::sync::mpsc::channel();
+    std::thread::spawn(move || {
+        let _ = tx.send(f());
+    });
+    match rx.recv_timeout(Duration::from_secs(3)) {
+        Ok(r) => r,
+        Err(_) => {
+            BLOCKED.fetch_add(1, Ordering::Relaxed);
+            "blocked".to_string()
+        }
+    }
+}
 
 fn temp_path(tag: &str) -> PathBuf {
     let base = std::env::var("VERIF_SOCK_DIR").unwrap_or_else(|_| "/verif/work/sock".to_string());
@@ -209,6 +226,7 @@ fn run_sock(kind: &str, cap: &str, nb: bool, drain: &str, ops: &[String]) -> Str
         None => return "setup-failed".to_string(),
     };
     let mut old_peers: Vec<UnixDatagram> = Vec::new();
+    let mut misdelivered = 0usize;
     let queuing = QueuingMetricSink::from(Shared(sink.clone()));
     let auto = drain == "a";
     let mut obs = Vec::new();
@@ -220,8 +238,13 @@ fn run_sock(kind: &str, cap: &str, nb: bool, drain: &str, ops: &[String]) -> Str
             v.iter().map(|p| dgrepr(p)).collect::<Vec<_>>().join(",")
         }
     };
+    let mut abandoned = false;
     for op in ops {
         let (c, rest) = op.split_at(1);
+        if abandoned {
+            obs.push("skipped/0.0/~".to_string());
+            continue;
+        }
         let res = match c {
             "e" | "g" => {
                 let m = if c == "e" {
@@ -229,17 +252,21 @@ fn run_sock(kind: &str, cap: &str, nb: bool, drain: &str, ops: &[String]) -> Str
                 } else {
                     gen_metric(rest.parse().unwrap_or(0))
                 };
-                match catch_unwind(AssertUnwindSafe(|| sink.emit(&m))) {
+                let sk = sink.clone();
+                watchdog(move || match catch_unwind(AssertUnwindSafe(|| sk.emit(&m))) {
                     Ok(Ok(n)) => format!("ok{}", n),
                     Ok(Err(e)) => format!("err{}", kind_index(e.kind())),
                     Err(_) => "panic".to_string(),
-                }
+                })
             }
-            "f" => match catch_unwind(AssertUnwindSafe(|| sink.flush())) {
-                Ok(Ok(())) => "ok0".to_string(),
-                Ok(Err(e)) => format!("err{}", kind_index(e.kind())),
-                Err(_) => "panic".to_string(),
-            },
+            "f" => {
+                let sk = sink.clone();
+                watchdog(move || match catch_unwind(AssertUnwindSafe(|| sk.flush())) {
+                    Ok(Ok(())) => "ok0".to_string(),
+                    Ok(Err(e)) => format!("err{}", kind_index(e.kind())),
+                    Err(_) => "panic".to_string(),
+                })
+            }
             "s" => fmt_stats(&sink.stats()),
             "q" => fmt_stats(&queuing.stats()),
             "r" => "ok0".to_string(),
@@ -256,7 +283,20 @@ fn run_sock(kind: &str, cap: &str, nb: bool, drain: &str, ops: &[String]) -> Str
         let ds = now.packets_sent - last.packets_sent;
         let dd = now.packets_dropped - last.packets_dropped;
         last = now;
+        if res == "blocked" {
+            abandoned = true;
+        }
         let got = if auto || c == "r" { peer.drain(if auto { ds as usize } else { 0 }) } else { vec![] };
+        // a restarted receiver's old socket is kept open; whatever still reaches it is counted at the end,
+        // and it is read here so that its queue can never fill up and block a (wrongly addressed) sender
+        {
+            let mut buf = vec![0u8; 65536];
+            for o in &old_peers {
+                while o.recv(&mut buf).is_ok() {
+                    misdelivered += 1;
+                }
+            }
+        }
         obs.push(format!("{}/{}.{}/{}", res, ds, dd, dg(got)));
     }
     // final sequence: the peer drains, then the sink is dropped (by every owner) and the peer drains again
@@ -269,10 +309,15 @@ fn run_sock(kind: &str, cap: &str, nb: bool, drain: &str, ops: &[String]) -> Str
     while Arc::strong_count(&sink) > 1 && t0.elapsed() < Duration::from_secs(5) {
         std::thread::yield_now();
     }
+    if abandoned {
+        // a call is still stuck inside the sink: do not wait for it
+        obs.push("stuck/x.x/~".to_string());
+        return obs.join(";");
+    }
     if Arc::strong_count(&sink) == 1 {
         let r = catch_unwind(AssertUnwindSafe(move || drop(sink)));
         let got = peer.drain(0);
-        let mut decoy = peer.decoy_count();
+        let mut decoy = peer.decoy_count() + misdelivered;
         let mut buf = vec![0u8; 65536];
         for o in &old_peers {
             while o.recv(&mut buf).is_ok() {
@@ -643,6 +688,9 @@ fn main() {
     let mut count = 0u64;
     let n = if tier == "quick" { 500 } else { 20000 };
     for i in 0..n {
+        if BLOCKED.load(Ordering::Relaxed) > 3 {
+            break;
+        }
         let kind = *rng.pick(&["udp", "unix", "budp", "bunix", "budp", "bunix", "unixgone", "bunixgone"]);
         let buffered = kind.starts_with('b');
         let (cap, capn) = if !buffered {
